@@ -81,6 +81,11 @@ def check_g2(pid, tier):
     results = runner.run_pool(g2.g2_task, [(pid, p) for p in pts], chunks=2)
     o10, c10_ = s10fields.obligations(pid, tier)
     results = list(results) + [{"obligations": o10}] + [{"crash": c, "payload": "S10", "trace": ""} for c in c10_]
+    # keyword flags are threaded through every helper call, also through the self-call of a recursive union helper
+    from . import c19
+
+    results += runner.run_pool(c19.recunion_task, [(pid, "dict", o) for o in (("TO_DICT_ADD_OMIT_NONE_FLAG",), ("TO_DICT_ADD_BY_ALIAS_FLAG", "TO_DICT_ADD_OMIT_NONE_FLAG"),
+                                                                              ("ADD_DIALECT_SUPPORT", "TO_DICT_ADD_OMIT_NONE_FLAG", "TO_DICT_ADD_BY_ALIAS_FLAG"))], chunks=1)
     obs, crashes, trusted = [], [], set()
     for r in results:
         if "crash" in r:
@@ -121,6 +126,19 @@ def check_g4(pid, tier):
         fpts += [g7.FPoint(m, mode, False, "selfref") for m in ("orjson", "msgpack", "toml") for mode in ("eager", "lazy")]
         results += runner.run_pool(g7.g7_task, [(pid, p) for p in fpts], chunks=1)
     obs, crashes, trusted = _collect(results)
+    if pid in ("C02", "C03"):
+        try:
+            from . import c17 as _c17
+
+            for r in runner.run_pool(_c17.codec_same_name_task, [(pid,)], chunks=1):
+                if "crash" in r:
+                    crashes.append(r["crash"] + " @ " + r["payload"] + "\n" + r["trace"][-500:])
+                else:
+                    obs.extend(r["obligations"])
+        except Exception as e:  # noqa
+            import traceback
+
+            crashes.append(f"codec same-name: {type(e).__name__}: {e}\n{traceback.format_exc()[-600:]}")
     if pid == "C03":
         # "the very class named in the annotation, never a look-alike": identity obligations on same-named classes
         # of different modules and on a generic dataclass specialised with a local class
@@ -205,6 +223,8 @@ def check_c18(pid, tier):
             for cd in (("none", "options") if ds else ("none",))]
     res3 = runner.run_pool(g7.g7_task, [(pid, p) for p in fpts], chunks=1)
     obs, crashes, trusted = _collect(res1 + res2 + res3)
+    # format codecs under user dialects that set no_copy_collections: the user's setting wins over the format dialect's
+    obs += g7._extra_codecs(pid, tier, uds=("no_copy_none", "no_copy_list"))
     return runner.finish(
         pid, tier, obs, t0,
         technique="ownership judgement inside the REF equality (fresh copy vs the input object itself; aliasing is accepted only where REF_ENC under no_copy_collections returns the input) on the harvested code of every container template, plus syntactic frame obligations (no store into / mutating call on anything reached from a parameter) on every generated function; z3",
@@ -249,6 +269,16 @@ def check_c15(pid, tier):
     from . import units
 
     obs += units.verify_oneshot(pid)
+    # the Decoder/Encoder of every format under user dialects (dict entries, strategy objects, pass_through) against the
+    # reference of the effective dialect - the same reference the mixin methods and the basic codec are proved against
+    obs += g7._extra_codecs(pid, tier, uds=("strategies", "strategy_objects", "pass_natives"))
+    from . import c17 as _c17
+
+    for r in runner.run_pool(_c17.codec_same_name_task, [(pid,)], chunks=1):
+        if "crash" in r:
+            crashes.append(r["crash"] + " @ " + r["payload"] + "\n" + r["trace"][-500:])
+        else:
+            obs.extend(r["obligations"])
     return runner.finish(
         pid, tier, obs, t0,
         technique="relational claims via a shared reference term: the codec encode/decode unit of T, the unit for List[T] (elementwise), the mixin method and the holder function of a plain dataclass are each proved equal to the same REF_ENC/REF_DEC/FROM_SPEC (pysym + z3), hence to each other; slot (frame) obligations on every module-level statement of the harvested texts",
@@ -301,6 +331,14 @@ def check_g7(pid, tier):
                 extra.append(dict(id=f"{pid}.G2/crash", status="error", detail=r["crash"] + " @ " + r["payload"] + r["trace"][-400:]))
             else:
                 extra += [o for o in r["obligations"] if "/dispatch" in o["id"]]
+    if pid == "C13":
+        from . import c19
+
+        for r in runner.run_pool(c19.recunion_task, [(pid, b_, ("ADD_DIALECT_SUPPORT",)) for b_ in ("dict", "orjson")], chunks=1):
+            if "crash" in r:
+                extra.append(dict(id=f"{pid}.Grec/crash", status="error", detail=r["crash"] + " @ " + r["payload"] + r["trace"][-400:]))
+            else:
+                extra += r["obligations"]
     if pid == "C14":
         from . import s6key
 
